@@ -55,12 +55,21 @@ package ingress
 
 //@ func (*BasicAuth).Verify
 //@   requires r != nil
+//@   modifies basicAsked, basicVerdict, basicCalls
+//@   sets basicCalls := old(basicCalls) + 1
+//@   sets basicAsked := a
+//@   sets basicVerdict := result
+//@   ensures [verdict_recorded] basicAsked == a && basicVerdict == result && basicCalls == old(basicCalls) + 1
 //@   ensures [C08:basic_sound] a != nil && len(a.Users) > 0 && result ==> ext2("net/http.(*Request).BasicAuth", "$2", r) && ext2("net/http.(*Request).BasicAuth", "$0", r) in a.Users && a.Users[ext2("net/http.(*Request).BasicAuth", "$0", r)] == ext2("net/http.(*Request).BasicAuth", "$1", r)
 //@   ensures [C08:basic_unconfigured] (a == nil || len(a.Users) == 0) ==> result
 
 //@ func (*HMACAuth).Verify
 //@   requires r != nil && r.Header != nil
-//@   modifies a.nonce, a.nonce.now, a.nonce.m, clockNow, cacheClock, macKey, macData, selectedSecrets, selectedAt
+//@   modifies a.nonce, a.nonce.now, a.nonce.m, clockNow, cacheClock, macKey, macData, selectedSecrets, selectedAt, hmacAsked, hmacVerdict, hmacCalls
+//@   sets hmacCalls := old(hmacCalls) + 1
+//@   sets hmacAsked := a
+//@   sets hmacVerdict := result
+//@   ensures [verdict_recorded] hmacAsked == a && hmacVerdict == result && hmacCalls == old(hmacCalls) + 1
 //@   loop 1 invariant [none_before] forall j int :: 0 <= j && j <= rangeindex ==> !(len(secrets[j]) > 0 && gotSig == hmacSHA256(secrets[j], msg))
 //@   ensures [C08:unconfigured_passes] !hmacConfigured(a) ==> result == nil
 //@   ensures [C08:only_unauthorized] result == nil || result == ErrUnauthorized
@@ -73,7 +82,11 @@ package ingress
 //@   ensures [C09:replay_rejected] let n := trim(headerGet(r.Header, a.NonceHeader)) :: hmacConfigured(a) && old(a.nonce != nil) && old(n in a.nonce.m) && clockNow <= old(a.nonce.m[n]) ==> result != nil
 
 //@ func (*ForwardAuth).Authorize
-//@   modifies *
+//@   modifies sends, lastRespCode, forwardAsked, forwardVerdict, forwardCalls
+//@   sets forwardCalls := old(forwardCalls) + 1
+//@   sets forwardAsked := a
+//@   sets forwardVerdict := result1
+//@   ensures [verdict_recorded] forwardAsked == a && forwardVerdict == result1 && forwardCalls == old(forwardCalls) + 1
 //@   ensures [C08:forward_unconfigured] (a == nil || trim(a.URL) == "") ==> result1 == 0 && sends == old(sends)
 //@   ensures [C08:forward_status_set] result1 == 0 || result1 == 401 || result1 == 403 || result1 == 503
 //@   ensures [C08:forward_accept_needs_2xx] a != nil && trim(a.URL) != "" && result1 == 0 ==> sends == old(sends) + 1 && lastRespCode >= 200 && lastRespCode < 300
@@ -84,3 +97,76 @@ package ingress
 //@   modifies a.nonce
 //@   ensures [C09:inherits] a != nil && prev != nil && prev.nonce != nil ==> a.nonce == prev.nonce
 //@   ensures [C09:else_untouched] !(a != nil && prev != nil && prev.nonce != nil) && a != nil ==> a.nonce == old(a.nonce)
+
+// ---- the ingress handler (C01, C07, C08, C10, C12) ----
+
+//@ func (*Server).observe
+//@   requires s != nil
+//@ func (*Server).observeReject
+//@   requires s != nil
+//@ func (*Server).resolveRoute
+//@   requires s != nil
+//@   modifies routeResolved, resolvedRoute
+//@   ensures [unwired_serves_path] s.ResolveRoute == nil ==> result1 && result0 == requestPath
+//@   ensures [wired_asks_resolver] s.ResolveRoute != nil ==> result1 == routeResolved && result0 == resolvedRoute
+
+//@ spec
+//@ pred strippedHeader(k string) := lower(k) == "authorization" || lower(k) == "proxy-authorization" || lower(k) == "cookie"
+//@ pred authPassed(s *Server) := (s.BasicAuthFor != nil && basicFor != nil ==> basicAsked == basicFor && basicVerdict) && (s.ForwardAuthFor != nil && forwardFor != nil ==> forwardAsked == forwardFor && forwardVerdict == 0) && (s.HMACAuthFor != nil && hmacFor != nil ==> hmacAsked == hmacFor && hmacVerdict == nil)
+
+//@ func headerKVSize
+//@   modifies lastKVSize
+//@   sets lastKVSize := result
+//@   loop 1 invariant [each_entry_bounded] total >= 0 && forall k string :: k in visited && k in headers ==> len(k) + len(headers[k]) <= total
+//@   ensures [C12:every_entry_within_total] result >= 0 && lastKVSize == result && forall k string :: k in headers ==> len(k) + len(headers[k]) <= result
+
+//@ func appendHeaderExtras
+//@   requires headers == nil || headers != extra
+//@   modifies headers
+//@   loop 1 ghost added set[string] := empty(string) step ite(name != "", add(added, name), added)
+//@   loop 1 ghost src gmap[string]string := _ step ite(name != "", store(src, name, key), src)
+//@   loop 1 invariant [shape] headers != nil && headers != extra
+//@   loop 1 invariant [untouched_or_extra] forall n string :: n in headers ==> ite(n in added, src[n] in extra && n == canon(trim(src[n])) && n != "" && headers[n] == extra[src[n]], pre(n in headers) && headers[n] == pre(headers[n]))
+//@   loop 1 invariant [base_kept] forall n string :: pre(n in headers) ==> n in headers
+//@   loop 1 invariant [visited_added] forall x string :: x in visited && x in extra && canon(trim(x)) != "" ==> canon(trim(x)) in headers
+//@   ensures [C07:extras_only_add_named_headers] forall n string :: n in result ==> (old(n in headers) && result[n] == old(headers[n])) || (exists x string :: x in extra && n == canon(trim(x)) && n != "" && result[n] == extra[x])
+//@   ensures [C07:base_headers_kept] forall n string :: old(n in headers) ==> n in result
+//@   ensures [C07:every_extra_present] forall x string :: x in extra && canon(trim(x)) != "" ==> canon(trim(x)) in result
+//@   ensures [same_map_or_fresh] result == headers || (headers == nil && (len(extra) == 0 || fresh(result)))
+
+//@ func copyHeadersWithExtra
+//@   modifies lastKVSize, headerCopies, headersFit
+//@   sets headerCopies := old(headerCopies) + 1
+//@   sets headersFit := result1
+//@   loop 1 ghost from gmap[string]string := _ step ite(strippedHeader(k), from, store(from, canon(k), k))
+//@   loop 1 invariant [only_unstripped] out != nil && fresh(out) && forall n string :: n in out ==> from[n] in h && !strippedHeader(from[n]) && n == canon(from[n]) && out[n] == ext("strings.Join", h[from[n]], ",")
+//@   loop 1 invariant [all_unstripped_visited] forall k2 string :: k2 in visited && k2 in h && !strippedHeader(k2) ==> canon(k2) in out
+//@   ensures [C07:sensitive_headers_never_persisted] result1 ==> forall n string :: n in result0 && strippedHeader(n) ==> exists x string :: x in extra && n == canon(trim(x))
+//@   ensures [C07:stored_headers_are_received_headers] result1 ==> forall n string :: n in result0 ==> (exists k2 string :: k2 in h && !strippedHeader(k2) && n == canon(k2) && result0[n] == ext("strings.Join", h[k2], ",")) || (exists x string :: x in extra && n == canon(trim(x)) && result0[n] == extra[x])
+//@   ensures [C07:every_received_header_stored] result1 && maxBytes > 0 ==> forall k2 string :: k2 in h && !strippedHeader(k2) ==> canon(k2) in result0
+//@   ensures [C12:headers_within_limit] result1 && maxBytes > 0 ==> forall n string :: n in result0 ==> len(n) + len(result0[n]) <= maxBytes
+//@   ensures [recorded] headerCopies == old(headerCopies) + 1 && headersFit == result1
+
+//@ func (*Server).ServeHTTP
+//@   requires s != nil && r != nil && r.URL != nil && r.Header != nil && s.Store != nil && respStatus == 0
+//@   modifies *
+//@   loop 1 invariant [all_stored_so_far] enqueued == rangeindex + 1 && enqueues == pre(enqueues) + enqueued && enqFailures == pre(enqFailures) && respStatus == 0 && rangeindex < len(targets)
+//@   loop 1 invariant [envelope_stable] env.Payload == body && env.Route == route && env.Headers == headers && env.LeaseID == "" && env.LeaseUntil == 0 && env.Attempt == 0 && env.State == "" && env.ID == ""
+//@   loop 1 invariant [auth_stable] authPassed(s)
+//@   calls queue.Store.Enqueue requires [C08:enqueue_only_when_every_authenticator_accepted] authPassed(s)
+//@   calls queue.Store.Enqueue requires [C10:enqueue_only_for_resolved_route] arg1.Route == route && (s.ResolveRoute != nil ==> routeResolved && route == resolvedRoute)
+//@   calls queue.Store.Enqueue requires [C07:payload_is_the_body_read] arg1.Payload == body && body == bodyRead && arg1.Headers == headers && arg1.Target == target
+//@   calls queue.Store.Enqueue requires [C12:within_body_limit] len(arg1.Payload) <= bodyLimit && (s.AllowRequestFor != nil ==> rateAllowed)
+//@   calls queue.Store.Enqueue requires [C02:fresh_queued_envelope] arg1.ID == "" && arg1.State == "" && arg1.LeaseID == "" && arg1.Attempt == 0
+//@   ensures [C01:accepted_only_after_every_target_stored] respStatus == 202 ==> enqFailures == old(enqFailures) && enqueues > old(enqueues)
+//@   ensures [C01:any_store_error_is_503] enqFailures != old(enqFailures) ==> respStatus == 503
+//@   ensures [C10:unresolved_is_404_or_405_without_effect] old(s.ResolveRoute != nil) && !routeResolved ==> enqueues == old(enqueues) && ((old(s.AllowedMethodsFor != nil) && allowedMethodsN > 0 ==> respStatus == 405) && (!(old(s.AllowedMethodsFor != nil) && allowedMethodsN > 0) ==> respStatus == 404))
+//@   ensures [C12:rate_limited_is_429_without_effect] old(s.AllowRequestFor != nil) && rateAsked == old(rateAsked) + 1 && !rateAllowed ==> respStatus == 429 && enqueues == old(enqueues)
+//@   ensures [C08:basic_reject_is_401_without_effect] old(s.BasicAuthFor != nil) && basicFor != nil && basicAsked == basicFor && !basicVerdict && respStatus != 429 && respStatus != 404 && respStatus != 405 ==> enqueues == old(enqueues)
+//@   ensures [C01:status_set] respStatus != 0
+//@   ensures [C08:basic_reject_is_401_without_effect] basicCalls == old(basicCalls) + 1 && !basicVerdict ==> respStatus == 401 && enqueues == old(enqueues)
+//@   ensures [C08:forward_reject_passes_status_without_effect] forwardCalls == old(forwardCalls) + 1 && forwardVerdict != 0 ==> respStatus == forwardVerdict && enqueues == old(enqueues)
+//@   ensures [C08:hmac_reject_is_401_without_effect] hmacCalls == old(hmacCalls) + 1 && hmacVerdict != nil ==> respStatus == 401 && enqueues == old(enqueues)
+//@   ensures [C12:unreadable_or_oversize_body_without_effect] bodyReads == old(bodyReads) + 1 && lastReadErr != nil ==> enqueues == old(enqueues) && respStatus == ite(errAs(lastReadErr, "*net/http.MaxBytesError"), 413, 400)
+//@   ensures [C12:oversize_headers_is_413_without_effect] headerCopies == old(headerCopies) + 1 && !headersFit ==> respStatus == 413 && enqueues == old(enqueues)
+//@   ensures [C12:at_most_one_read] bodyReads == old(bodyReads) || bodyReads == old(bodyReads) + 1
